@@ -39,12 +39,13 @@ func bvLit(lo, hi uint64, w int) string {
 
 // Query is a printable set of assertions with shared sub-terms named.
 type Query struct {
-	Vars    []*Term
-	Text    string // declarations, definitions and assertions (no push/pop/check-sat)
-	HasFP   bool
-	Nonlin  bool
-	Wide    bool
-	IntMode bool // integer translation: models come back as numerals
+	Vars       []*Term
+	Text       string // declarations, definitions and assertions (no push/pop/check-sat)
+	HasFP      bool
+	Nonlin     bool
+	Wide       bool
+	Abstracted bool // float islands replaced by uninterpreted functions: only unsat is meaningful
+	IntMode    bool // integer translation: models come back as numerals
 }
 
 type printer struct {
@@ -290,6 +291,7 @@ type absPrinter struct {
 	ufs     map[string]string // shape -> function name
 	ufDecls []string
 	abs     map[uint64]*island
+	roots   map[uint64]*Term
 }
 
 // isIslandRoot: a non-float-sorted term with at least one float-sorted argument.
@@ -316,6 +318,10 @@ func (p *absPrinter) countAbs(t *Term) {
 	if isIslandRoot(t) {
 		is := p.fpIsland(t)
 		p.abs[t.ID] = is
+		if p.roots == nil {
+			p.roots = map[uint64]*Term{}
+		}
+		p.roots[t.ID] = t
 		if _, ok := p.ufs[is.shape]; !ok {
 			name := fmt.Sprintf("fpabs!%d", len(p.ufs))
 			p.ufs[is.shape] = name
@@ -401,7 +407,7 @@ func (p *absPrinter) exprAbs(t *Term, top bool) {
 
 // BuildQueryAbstractFP returns nil when an assertion cannot be abstracted (a float
 // variable or float-sorted assertion-level structure that is not under an island root).
-func BuildQueryAbstractFP(asserts []*Term) *Query {
+func BuildQueryAbstractFP(asserts []*Term, ia *Intervals) *Query {
 	p := &absPrinter{ufs: map[string]string{}, abs: map[uint64]*island{}}
 	p.refs, p.named, p.vars = map[uint64]int{}, map[uint64]bool{}, map[*Term]bool{}
 	q := &Query{}
@@ -421,6 +427,30 @@ func BuildQueryAbstractFP(asserts []*Term) *Query {
 	}
 	for _, a := range asserts {
 		p.defineAbs(a)
+	}
+	// sound range facts for abstracted float->integer results (interval analysis)
+	if ia != nil {
+		var roots []*Term
+		for id := range p.abs {
+			roots = append(roots, p.roots[id])
+		}
+		sort.Slice(roots, func(i, j int) bool { return roots[i].ID < roots[j].ID })
+		for _, t := range roots {
+			if t.W <= 0 || t.W > 64 {
+				continue
+			}
+			if iv := ia.Of(t); iv.OK {
+				p.sb.WriteString("(assert (and (bvsle ")
+				p.sb.WriteString(bvLit(uint64(int64(iv.Lo)), 0, t.W))
+				p.sb.WriteByte(' ')
+				p.exprAbs(t, false)
+				p.sb.WriteString(") (bvsle ")
+				p.exprAbs(t, false)
+				p.sb.WriteByte(' ')
+				p.sb.WriteString(bvLit(uint64(int64(iv.Hi)), 0, t.W))
+				p.sb.WriteString(")))\n")
+			}
+		}
 	}
 	for _, a := range asserts {
 		p.sb.WriteString("(assert ")
